@@ -15,6 +15,7 @@ def run(ctx):
                'sentinel corner (finding n): while no evaluation is below sys.float_info.max the best agent is never updated -- explicit disjunct of the theorem',
                '"private copy" in the identity sense is C07')
     meta, errors = _ir.regenerate(ctx)
+    _ir.agent_data_model(ctx)
     ok, log = ctx.build_props()
     if ok:
         _ir.nonvacuity(ctx, meta)
